@@ -126,6 +126,7 @@ type Sim struct {
 	reorder          bool // whether non-FIFO delivery happened
 	faultsOn         bool
 	inEmitHook       bool
+	inTimeout        bool
 	KnownF5          bool
 	// Template mode ("one victim, one wildcard"): a Byzantine dealer mistreats exactly one honest victim's share, every other
 	// fault point is honest except the one whose running number equals Wildcard, where the fault kind is drawn freely.
@@ -134,6 +135,8 @@ type Sim struct {
 	Wildcard    int
 	faultPoint  int
 	heldVectors []*delivery
+	deferring   map[int]int // honest sender -> round in which one of its broadcasts was deferred (later ones of that round follow it)
+	NoDefer     bool        // switch the deferral of honest reaction messages off (plain VSS, C09's no-panic networks keep it on)
 	Excluded    map[string]int
 	started     bool
 	startBuf    []*delivery
@@ -151,7 +154,7 @@ func (s *Sim) class(c string) { s.Classes[c] = true }
 func New(g *gen.G, proto Protocol, n, t, dealer int, byz []int, swapped bool) *Sim {
 	s := &Sim{G: g, Proto: proto, N: n, T: t, Dealer: dealer, later: map[int][]*delivery{}, bseq: make([]int, n),
 		Dealers: map[int]*DealerInfo{}, HonestComplaints: map[[2]int]int{}, AllComplaints: map[[2]int]int{}, Answers: map[[2]int][]byte{}, FirstVector: map[int][]byte{}, FirstVectorRound: map[int]int{}, Classes: map[string]bool{},
-		Excluded: map[string]int{}, Swapped: swapped, faultsOn: true}
+		Excluded: map[string]int{}, deferring: map[int]int{}, Swapped: swapped, faultsOn: true}
 	isByz := map[int]bool{}
 	for _, b := range byz {
 		isByz[b] = true
@@ -248,10 +251,40 @@ func (s *Sim) emit(from, to int, data []byte) {
 func (s *Sim) route(d *delivery) {
 	nd := s.Nodes[d.from]
 	if !nd.Byz || !s.faultsOn {
-		s.enqueue(d, 0)
+		s.enqueue(d, s.honestDelay(d))
 		return
 	}
 	s.byzantine(d)
+}
+
+// honestDelay decides whether a broadcast that an honest participant emits in reaction to a message (a complaint on a
+// bad share in round 1, a complaint answer in round 1 or 2) is delivered in the round it was emitted in or in the next
+// one.  The library gives every message type its own deadline (shares and vector: first timeout; complaints: second
+// timeout; answers: End), and a reaction to a message that arrived late in a round cannot be expected before the
+// round's timeout.  A deferred broadcast still reaches every receiver in one and the same round, and later broadcasts
+// of the same sender in that round are deferred with it (per-sender order).  Messages emitted inside Start or
+// NextTimeout (shares, vectors, complaints about missing shares) are never deferred: they open their round.
+func (s *Sim) honestDelay(d *delivery) int {
+	if s.NoDefer || !d.broadcast || len(d.data) == 0 || s.Proto == FeldmanVSS || !s.started || s.inTimeout {
+		return 0
+	}
+	if s.deferring[d.from] == s.Round {
+		return 1
+	}
+	ok := false
+	switch d.data[0] {
+	case TagComplaint:
+		ok = s.Round == 1
+	case TagAnswer:
+		ok = s.Round <= 2
+	}
+	if !ok || !s.G.Chance("honestReactionNextRound", 1, 5) {
+		return 0
+	}
+	s.deferring[d.from] = s.Round
+	s.class("honest:" + map[byte]string{TagComplaint: "complaint", TagAnswer: "answer"}[d.data[0]] + "DeliveredNextRound")
+	s.tracef("  (honest %d: %s is delivered in the next round)", d.from, Describe(d.data))
+	return 1
 }
 
 // enqueue puts a message into the pool of round (current + delay).
@@ -397,12 +430,14 @@ func (s *Sim) deliver(d *delivery) {
 func (s *Sim) Timeout() {
 	order := s.G.Perm("timeoutOrder", s.N)
 	s.Round++
+	s.inTimeout = true
 	for _, i := range order {
 		s.tracef("NextTimeout node %d (round %d begins)", i, s.Round)
 		if err := s.Nodes[i].Inst.NextTimeout(); err != nil {
 			s.G.Fatalf("node %d: NextTimeout #%d failed: %v", i, s.Round-1, err)
 		}
 	}
+	s.inTimeout = false
 	for _, d := range s.later[s.Round] {
 		s.enqueue(d, 0)
 	}
@@ -583,7 +618,14 @@ func (s *Sim) byzantine(d *delivery) {
 			s.class("answer:followedByPrivateInconsistentShare")
 			defer s.enqueue(&delivery{from: d.from, to: c, data: append([]byte{TagShare}, late...)}, 0)
 		}
-		switch s.faultDraw("answerFault", 8) {
+		answerKind := -1
+		if s.Template && len(d.data) >= 2 && int(d.data[1]) == s.Victim {
+			// template mode: how the dealer treats the victim's complaint is an explicit dimension of the scenario
+			answerKind = []int{0, 0, 3, 3, 4, 5, 6, 7, 8}[g.Pick("victimAnswerFault", 9)]
+		} else {
+			answerKind = s.faultDraw("answerFault", 8)
+		}
+		switch answerKind {
 		case 0, 1, 2:
 			s.enqueue(d, 0)
 		case 3:
